@@ -123,7 +123,27 @@ class C35(Check):
                 sent_now = [(DESTS.index(dst), data) for (_s, dst, data) in net.sent_dgrams[sent0:]]
                 tr.add("pass", npass, spec["fail"], spec["once"], sent_now)
                 out.steps += 1
-                if not spec["once"]:
+                first_only = bool(net.dest_faults_once) or (npass in (plan.get("first") or []) and bool(spec["fail"]))
+                if not spec["once"] and first_only:
+                    # the error was reported once: a stack may or may not try that destination again within the pass; what it sends
+                    # to it must be the head of that destination's queue in order, and the other destinations are served as ever
+                    should = [(d, p) for d, p in pending_before if d not in failing]
+                    other = [x for x in sent_now if x[0] not in failing]
+                    if other != should:
+                        out.violate("blocked" if len(other) < len(should) else "reordered", "healthy destination %s within a pass" % ("blocked" if len(other) < len(should) else "reordered"),
+                                    "pass %d failing once %r: sent %r, expected for the healthy destinations %r" % (npass, sorted(failing), sent_now, should))
+                        break
+                    bad = None
+                    for d in failing:
+                        sd = [p for dd, p in sent_now if dd == d]
+                        pd = [p for dd, p in pending_before if dd == d]
+                        if sd != pd[:len(sd)]:
+                            bad = (d, sd, pd)
+                    if bad:
+                        out.violate("reordered", "healthy destination reordered within a pass",
+                                    "pass %d: destination %d reported one error; sent to it %r although its queue was %r" % (npass, bad[0], bad[1], bad[2]))
+                        break
+                elif not spec["once"]:
                     # within a pass a failing destination must not hold back packets to healthy destinations
                     should = [(d, p) for d, p in pending_before if d not in failing]
                     if sent_now != should:
